@@ -124,8 +124,14 @@ def check_create(a, info):
     info.cls("protein" if protein else "dna")
     info.cls("invalid-symbol(rejection)", not valid)
     info.cls("unequal-lengths(rejection)", valid and not equal)
+    # `sequences` is documented as an iterable of str: hand it over as a list, a tuple, or something that can be
+    # walked only once (a generator, an iterator, a map object)
+    container = a.get("container", "list")
+    given = {"list": lambda: list(sites), "tuple": lambda: tuple(sites), "generator": lambda: (s for s in sites), "iter": lambda: iter(list(sites)),
+             "map": lambda: map(str, sites)}[container]()
+    info.cls("sequences-given-as:%s" % container)
     try:
-        motif = lightmotif.create(sites, protein=protein, name=name)
+        motif = lightmotif.create(given, protein=protein, name=name)
     except ORDINARY as e:
         if valid and equal:
             raise Violation("create:rejects-valid", "create(%r) raised %s: %s" % (sites, type(e).__name__, e))
@@ -165,7 +171,8 @@ def create_args(draw):
         j = draw(st.integers(0, len(sites[i]) - 1))
         bad = draw(st.sampled_from(["a", "z", "-", "U" if not protein else "B", " ", "é", "0"]))
         sites[i] = sites[i][:j] + bad + sites[i][j + 1:]
-    return {"protein": protein, "sites": sites, "name": draw(st.one_of(st.none(), st.text(max_size=8)))}
+    return {"protein": protein, "sites": sites, "name": draw(st.one_of(st.none(), st.text(max_size=8))),
+            "container": draw(st.sampled_from(["list", "list", "tuple", "generator", "iter", "map"]))}
 
 
 # ----------------------------------------------------------------------------- normalize / log_odds
@@ -595,6 +602,83 @@ def check_revcomp(a, info):
     info.nontrivial = len(rows) >= 2 and n >= 1 and reverse_complement_rows(rows) != rows
 
 
+# ----------------------------------------------------------------------------- two threads, one matrix
+
+
+def check_two_threads(a, info):
+    """One matrix object used by two Python threads at once, as when both strands are scanned in parallel: while a
+    second thread scores a long sequence with it (calculate releases the interpreter lock), the first asks the same
+    object for its reverse complement, its distribution and p-values. Every call must return what it returns in a
+    single thread."""
+    import threading
+    pssm = build_pssm(a["sites"], False, a["pseudo"])
+    rows = pssm_rows(pssm)
+    unit = a["unit"]
+    seq = (unit * (a["length"] // len(unit) + 1))[:a["length"]]
+    striped = lightmotif.stripe(seq)
+    ref_first = window_scores_f32(rows, indices(seq[:len(rows) + 3], False))
+    started, errors, done = threading.Event(), [], []
+
+    def worker():
+        try:
+            for _ in range(a["rounds"]):
+                started.set()
+                sc = pssm.calculate(striped)
+                if len(ref_first) and not close(sc[0], float(ref_first[0]), 1e-4):
+                    errors.append(Violation("threads:calculate", "calculate() in the second thread: score[0] = %r expected %r" % (sc[0], float(ref_first[0]))))
+                    return
+        except BaseException as e:  # noqa
+            errors.append(e)
+        finally:
+            started.set()
+            done.append(True)
+
+    t = threading.Thread(target=worker)
+    t.start()
+    started.wait()
+    try:
+        for op in a["ops"]:
+            info.comparisons += 1
+            if op == "rc":
+                rc = pssm.reverse_complement()
+                if pssm_rows(rc) != reverse_complement_rows(rows):
+                    raise Violation("threads:reverse_complement", "reverse_complement() while another thread calculates is not the mirrored matrix")
+            elif op == "dist":
+                sf = memoryview(pssm.score_distribution).tolist()
+                if len(sf) != len(rows) * 1000 + 1:
+                    raise Violation("threads:score_distribution", "%d values for width %d" % (len(sf), len(rows)))
+            elif op == "pvalue":
+                p = pssm.pvalue(0.0)
+                if not (0.0 <= p <= 1.0):
+                    raise Violation("threads:pvalue", "pvalue(0.0) = %r" % p)
+            else:
+                sc = pssm.calculate(lightmotif.stripe(seq[:64]))
+                if len(sc) != max(0, 64 - len(rows) + 1) and len(seq) >= 64:
+                    raise Violation("threads:calculate", "%d scores for a 64-symbol sequence and width %d" % (len(sc), len(rows)))
+        overlapped = not done
+    finally:
+        t.join()
+    if errors:
+        e = errors[0]
+        if isinstance(e, Violation):
+            raise e
+        raise e
+    info.cls("first-thread-calls-overlapped-the-second-thread's-calculate", overlapped)
+    info.nontrivial = overlapped and len(rows) >= 2
+
+
+@st.composite
+def two_threads_args(draw):
+    return {
+        "sites": draw(sites_st(False, min_n=2, max_n=6, min_w=2, max_w=12)),
+        "pseudo": draw(st.sampled_from([0.1, 0.25, 1.0])),
+        "unit": draw(st.text(alphabet=st.sampled_from("ACGT"), min_size=3, max_size=11)),
+        "length": draw(st.sampled_from([200000, 400000, 1000000])),
+        "rounds": draw(st.integers(3, 8)),
+        "ops": draw(st.lists(st.sampled_from(["rc", "rc", "dist", "pvalue", "calculate"]), min_size=1, max_size=4)),
+    }
+
+
 # ----------------------------------------------------------------------------- load
 
 
@@ -820,7 +904,7 @@ def revcomp_args(draw):
 BAD_KINDS = ["alphabet-mismatch-calculate", "alphabet-mismatch-scan", "invalid-sequence", "bad-background", "bad-pseudocount", "bad-matrix", "bad-method", "bad-load"]
 
 SUBS = [
-    Sub("create", "site lists (DNA / protein, 0..10 sites of width 0..15, 20% made invalid by an unequal length or a foreign / lower-case / non-ASCII symbol) -> lightmotif.create; counts = occurrence counts, pwm = (count/n)/uniform background, pssm = log2; invalid input must raise an ordinary exception; non-trivial = >= 2 sites of width >= 2, or a rejection",
+    Sub("create", "site lists (given as a list, a tuple or something that can be walked only once: a generator, an iterator, a map object; DNA / protein, 0..10 sites of width 0..15, 20% made invalid by an unequal length or a foreign / lower-case / non-ASCII symbol) -> lightmotif.create; counts = occurrence counts, pwm = (count/n)/uniform background, pssm = log2; invalid input must raise an ordinary exception; non-trivial = >= 2 sites of width >= 2, or a rejection",
         create_args(), check_create, 300, 5000),
     Sub("log_odds", "CountMatrix from a dict (symbol subset, width 1..12) -> normalize(pseudocount None / float / dict) -> log_odds(background dict of dyadic frequencies or None, base 2 / 10 / e / 3.5); rows compared with (c+p)/total / uniform background and log_base(freq / given background); non-trivial = width >= 2 and (background given or dict pseudocount or base != 2)",
         log_odds_args(), check_log_odds, 400, 6000),
@@ -836,6 +920,8 @@ SUBS = [
         pvalue_args(), check_pvalue, 300, 4000),
     Sub("reverse_complement", "DNA motif x sequence: reverse_complement() is the mirrored matrix, an involution, and scores position L-M-i of the reverse-complemented sequence like the original scores position i; non-trivial = width >= 2, non-palindromic, >= 1 position",
         revcomp_args(), check_revcomp, 200, 4000),
+    Sub("two-threads", "one ScoringMatrix shared by two Python threads: the second scores a 0.2..1 M-symbol sequence with it 3..8 times (calculate releases the interpreter lock) while the first asks the same object for its reverse complement / score distribution / p-value / another calculate; every call must return, and return what it does in one thread; non-trivial = the calls did overlap the other thread's calculate",
+        two_threads_args(), check_two_threads, 40, 400),
     Sub("load", "1..5 records written in JASPAR / JASPAR 2016 / TRANSFAC / UniPROBE syntax (DNA and protein, symbol subsets, CRLF) loaded from a path, a BytesIO or a duck-typed file object whose read() returns 1 / 7 / 100 / 5000 bytes at a time; names, metadata, counts and pwm / pssm rows equal the written data pushed through the definitions; non-trivial = >= 2 records",
         load_args(), check_load, 200, 4000),
     Sub("load-malformed", "a valid generated motif file with 1..3 byte / line mutations (truncation, substitution, deletion, insertion, line removal / duplication / insertion of unknown or misplaced lines, invalid UTF-8 bytes; descriptions may hold multi-byte characters), read by lightmotif.load through a BytesIO with its own or (1 in 4) a foreign format: the call must return motifs or raise ValueError / OSError / another ordinary exception, never PanicException (C15 seen from Python); non-trivial = an exception was raised",
